@@ -326,10 +326,30 @@ def check_helpers(ctx, tu):
         for n in f.calls():
             cal = f.callee(n)
             if cal and cal.get('lib') and cal['name'] not in allowed and not cal.get('lambdaop'):
+                if any(leaf_setter(h) is not None for h in f.callee_fns(n)):
+                    continue      # `found = true; return false;` behind a free helper that touches nothing but its reference parameter
                 bad.append('%s at %s' % (short(cal['key']), f.nloc(n)))
         ctx.ob('C01.H', f, 'the eventutil helper reaches the list only through forEachIf / remove', not bad, detail=', '.join(bad), key_detail='helper callees')
         if f.kind == 'lambda' and f.parent_fn() is not None and f.parent_fn().name in ('removeListener', 'hasListener', 'hasAnyListener'):
             check_util_visitor(ctx, tu, f)
+
+
+def leaf_setter(h):
+    """h is a free helper of the library without calls of its own whose only effects are assignments of literals to its reference
+    parameters: {parameter index: literal value}; None otherwise."""
+    from ..effects import writes as _writes
+    if h.kind != 'free' or h.body is None or h.calls() or any(h.block_reaches(b, b) for b in h.blocks):
+        return None
+    out = {}
+    pidx = {'v:%s#%d' % (pp['name'], pp['id']): i for i, pp in enumerate(h.params) if pp.get('pass') == 'lref'}
+    for w in _writes(h):
+        if w['how'] != 'assign' or len(w['path']) != 1 or w['path'][0] not in pidx or w.get('rhs') is None:
+            return None
+        v = h.nodes[h.strip_all_casts(w['rhs'])].get('value')
+        if v is None or not h.pos_postdominates(w['pos'], (h.entry, 0)):
+            return None
+        out[pidx[w['path'][0]]] = v
+    return out or None
 
 
 def check_util_visitor(ctx, tu, f):
@@ -362,8 +382,27 @@ def check_util_visitor(ctx, tu, f):
         return any(L.edge_dominates(f, b, 'true', pos) for b in match_blocks)
     rm = [n for n in f.calls() if (f.callee(n) or {}).get('name') in ('remove', 'removeListener')]
     ws = [w for w in _writes(f) if w['how'] == 'assign' and 'found' in pstr(w['path'])]
+    via_helper = False
+    for n in f.calls():
+        for h in f.callee_fns(n):
+            ls = leaf_setter(h)
+            if ls:
+                for i, v in ls.items():
+                    a = f.call_args(n)
+                    if i < len(a) and 'found' in pstr(path(f, a[i])):
+                        ws.append({'how': 'assign', 'path': path(f, a[i]), 'pos': f.pos(n), 'node': n, 'rhs': None, 'lit': v})
+                        via_helper = True
+    if via_helper:
+        try:
+            fm = F.formula(f, inline=True)      # the helper's constant result is part of the visitor's result
+            ats = F.atoms(fm)
+            match = [a for a in ats if '==' in a]
+        except F.Unsupported:
+            pass
 
     def rhs_ok(w):
+        if w.get('rhs') is None:
+            return w.get('lit') is True
         r = f.strip_all_casts(w['rhs'])
         if f.nodes[r].get('value') is True:
             return True
